@@ -165,10 +165,15 @@ def monitorProbed (script : List Cmd) (iters : List Iter) (d : Nat) (answersOnly
       let asked := ((pk.filter fun q => q.k < p.k && q.ifi == p.ifi && !q.resp &&
         q.m.questions.any fun qu => lower qu.name == lower r.name && qu.ty == 255).map (·.t)).eraseDups
       let what := s!"rec={hexOfBytes r.name}/{r.ty} if={p.ifi} t={p.t} probes={probeTimes pk p.ifi p.k r}"
+      -- D37: after a host rename direct answers carry an SRV record with the OLD target, while
+      -- the announcements (and the probes) carried the new one
+      let staleSrv := r.ty == 33 && (rxs.any fun x => x.resp && x.k ≤ p.k) && pk.any fun q => q.k < p.k && q.resp &&
+        (q.m.answers.any fun r' => r'.ty == 33 && lower r'.name == lower r.name && r'.rdata != r.rdata && r'.ttl > 0)
       -- (the label of the lost tiebreak comes after the mechanisms that explain the record by
       -- themselves - a late iteration, a re-registration: since the repair of D34 a competing probe
       -- that was read is not a reason any more)
-      if renamedName && probedBy asked p.t then some s!"record-missing-from-first-probe-after-rename {what}"
+      if staleSrv then some s!"old-name-used-after-rename {what}"
+      else if renamedName && probedBy asked p.t then some s!"record-missing-from-first-probe-after-rename {what}"
       else if timeJump then some s!"announced-with-fewer-than-three-probes-late-iteration {what}"
       else if sameInst then some s!"answered-while-address-still-probing {what}"
       else if sharedHost then some s!"announced-with-fewer-than-three-probes-shared-probe {what}"
@@ -190,10 +195,10 @@ def announces (iters : List Iter) (d : Nat) : List (Nat × BList × String) :=
 /-- unsolicited multicast responses of daemon `d` that speak for `inst` - its announcements -
     as (iteration, time): packets with a record of the instance and a TTL above 0, sent in an
     iteration that read no datagram -/
-def announcementsOf (iters : List Iter) (pk : List Pkt) (inst : BList) : List (Nat × Nat) :=
+def announcementsOf (iters : List Iter) (pk : List Pkt) (inst : BList) : List (Nat × Nat × Nat × Bool) :=
   ((pk.filter fun p => p.resp && p.dest == "m" &&
       (p.m.answers.any fun r => r.ttl > 0 && (match r.rdata with | .ptr n => lower n == inst | _ => false)) &&
-      (iters.toArray[p.k]?.map fun it => it.rx.isEmpty).getD false).map fun p => (p.k, p.t)).eraseDups
+      (iters.toArray[p.k]?.map fun it => it.rx.isEmpty).getD false).map fun p => (p.k, p.t, p.ifi, p.v4)).eraseDups
 
 /-- is the history free of everything that may legitimately delay or cancel an announcement:
     conflicting datagrams, time jumps, interface changes, unregistration, shutdown, renames -/
@@ -228,16 +233,17 @@ def monitorAnnounced (script : List Cmd) (iters : List Iter) (d : Nat) : Option 
               Intf.validIpOnIntf ip ifIp (SimResponder.maskOctets ip.length i.prefixLen)
           | none => false
     let mine := announcementsOf iters pk full
-    if usable && tr + 2000 ≤ tEnd && !(mine.any fun a => a.2 ≤ tr + 2000) then
+    if usable && tr + 2000 ≤ tEnd && !(mine.any fun a => a.2.1 ≤ tr + 2000) then
       some s!"registration-not-announced-within-two-seconds inst={hexOfBytes full} registered-at={tr}"
     else
       -- the first announcement is repeated one second later (the second token of the event
       -- names the interface differently in the two announcements: not used as a key)
+      -- on every interface and family: "announced at least twice, one second apart"
       mine.findSome? fun a =>
-        let first := !(mine.any fun b => b.1 < a.1)
-        let ta := a.2
-        if first && ta + 1000 ≤ tEnd && !(mine.any fun b => b.2 == ta + 1000) then
-          some s!"no-second-announcement-one-second-later inst={hexOfBytes full} first-at={ta}"
+        let first := !(mine.any fun b => b.1 < a.1 && b.2.2 == a.2.2)
+        let ta := a.2.1
+        if first && ta + 1000 ≤ tEnd && !(mine.any fun b => b.2.1 == ta + 1000 && b.2.2 == a.2.2) then
+          some s!"no-second-announcement-one-second-later inst={hexOfBytes full} if={a.2.2.1} v4={a.2.2.2} first-at={ta}"
         else none
 
 /-! ### C09 -/
@@ -309,6 +315,36 @@ def monitorUnregister (script : List Cmd) (iters : List Iter) (d : Nat) : Option
           else match loud with
             | some p => some s!"speaks-for-service-after-unregister name={hexOfBytes name} t={p.t}"
             | none => none
+
+/-! ### C10 at daemon level -/
+
+/-- `ok_C10` on a responder: a query that lists one of our records as a known answer - the very
+    record we would send (same owner spelling, type, class with the cache-flush bit, RDATA) with
+    a TTL above half of ours - is not answered with that record; and the other way round, a
+    listed TTL of at most half (or other RDATA) does not silence an answer the query asks for
+    (judged for address questions on a host name, where the expected answer is unambiguous).
+    Only iterations that read exactly one datagram and made no API call are judged. -/
+def monitorKnownAnswers (script : List Cmd) (iters : List Iter) (d : Nat) : Option String :=
+  if !plainNames script then none else
+  let pk := sentBy iters d
+  let rxs := readBy iters d
+  rxs.findSome? fun x =>
+    if x.resp then none else
+    let alone := (rxs.filter fun y => y.k == x.k).length == 1
+    let quietIter := (iters.toArray[x.k]?.map fun it => it.calls.isEmpty &&
+      !(it.evs.any fun e => e.2.headD "" == "announce" || e.2.headD "" == "unreg")).getD false
+    if !alone || !quietIter then none else
+    let out := pk.filter fun p => p.k == x.k && p.resp
+    -- (1) suppressed records must stay unsent
+    out.findSome? fun p =>
+      p.m.answers.findSome? fun r =>
+        let listed := x.m.answers.any fun ka =>
+          ka.name == r.name && ka.ty == r.ty && ka.cls == r.cls && ka.flush == r.flush && ka.rdata == r.rdata &&
+          decide (2 * ka.ttl > r.ttl)
+        -- a legacy (unicast) answer clears the cache-flush bit: compare the multicast form only
+        if listed && p.dest == "m" && r.ttl > 0 then
+          some s!"answer-sent-although-listed-as-known-answer rec={hexOfBytes r.name}/{r.ty} t={p.t}"
+        else none
 
 /-! ### C06 -/
 
